@@ -19,7 +19,10 @@ RULE = ("Vector: for every configuration (0..2 names quick / 0..3 thorough; per-
         "each side, all on bounds, all outside, NaN, wrong lengths), unknown key, reset, clone-and-continue, "
         "to_dict/from_dict-and-continue} is executed on the real object (state rebuilt by replaying its history) and compared "
         "with a reference transition function; invariants (bounds, NaN policy, construction data bit-identical, rejected "
-        "assignment leaves everything untouched, copies equal and independent) on every transition. states/transitions are "
+        "assignment leaves everything untouched, copies equal and independent) on every transition; the observation includes "
+        "the hidden aliasing relation numpy.shares_memory(values, defaults|mins|maxs) (part of the state key, must be all-false); "
+        "differential oracle over alternative histories: a state reached through another kind of last operation than its canonical "
+        "history must have the same futures under every operation. states/transitions are "
         "those of the search; traces = histories replayed on the implementation. Transform: for each of the 13 classes and "
         "each parameter state of a small lattice, every sequence up to depth 3 (4 thorough) over {forward, backward, jacobian, "
         "backward_censored, params_sample, params_logprior, str, set a parameter}; after every read-only call params, "
@@ -31,7 +34,7 @@ ASSUMPTIONS = [
     "reset is an assignment of the defaults (never clipped)",
     "numpy.random is seeded by the harness before params_sample",
 ]
-TECHNIQUE = "explicit-state BFS over the real Vector object to the reachable-state fixpoint, reference transition function compared on every transition; depth-bounded exhaustive call sequences for transforms"
+TECHNIQUE = "explicit-state BFS over the real Vector object to the reachable-state fixpoint, reference transition function compared on every transition, differential check of alternative histories; depth-bounded exhaustive call sequences for transforms"
 
 NAN = float("nan")
 INF = float("inf")
